@@ -1,10 +1,13 @@
 (** C16 part 4: laws of the public helpers (unsorted samples) and of quantile mapping. *)
 From Coq Require Import QArith Qabs Qround ZArith List Bool Lia Lqa Sorted.
-From IV Require Import QL Ecdf QFacts C16_step C16_lerp C16_interp.
+From IV Require Import QL Ecdf QFacts C16_step C16_lerp C16_discrete C16_interp.
 Import ListNotations.
 Open Scope Q_scope.
 
-Definition proved_iecdf (m : iecdf_method) : Prop := m = inverted_cdf \/ continuous_method m.
+Definition proved_iecdf (m : iecdf_method) : Prop := m = inverted_cdf \/ continuous_method m \/ discrete_numpy m.
+(** ... which is every method *)
+Lemma every_iecdf_method_proved m : proved_iecdf m.
+Proof. destruct m; unfold proved_iecdf, continuous_method, discrete_numpy; intuition congruence. Qed.
 Definition proved_ecdf (m : ecdf_method) : Prop := m = step_function \/ m = linear_interpolation.
 
 Lemma qsort_nonempty x : x <> [] -> qsort x <> [].
@@ -44,34 +47,38 @@ Lemma iecdf_range m x p : proved_iecdf m -> x <> [] -> 0 <= p <= 1 -> QL.qmin x 
 Proof.
   intros Hm Hne Hp. pose proof (qsort_nonempty x Hne) as Hs. unfold iecdf.
   rewrite <- (sorted_first_is_min x Hne), <- (sorted_last_is_max x Hne).
-  destruct Hm as [E|Hc].
+  destruct Hm as [E|[Hc|Hd]].
   - subst m. cbn [iecdf_sorted]. apply iecdf_inv_range; [apply qsort_sorted|exact Hs|exact Hp].
   - apply quantile_ab_range; [exact Hc|apply qsort_sorted|exact Hs].
+  - apply discrete_range; [exact Hd|apply qsort_sorted|exact Hs|exact Hp].
 Qed.
 
 Lemma iecdf_mono m x p1 p2 : proved_iecdf m -> x <> [] -> 0 <= p1 -> p1 <= p2 -> p2 <= 1 ->
   iecdf m x p1 <= iecdf m x p2.
 Proof.
   intros Hm Hne H0 H12 H1. pose proof (qsort_nonempty x Hne) as Hs. unfold iecdf.
-  destruct Hm as [E|Hc].
+  destruct Hm as [E|[Hc|Hd]].
   - subst m. cbn [iecdf_sorted]. apply iecdf_inv_mono; try assumption. apply qsort_sorted.
   - apply quantile_ab_mono; try assumption. apply qsort_sorted.
+  - apply discrete_mono; try assumption. apply qsort_sorted.
 Qed.
 
 Lemma iecdf_at_0 m x : proved_iecdf m -> x <> [] -> iecdf m x 0 == QL.qmin x.
 Proof.
   intros Hm Hne. pose proof (qsort_nonempty x Hne) as Hs. unfold iecdf.
-  rewrite <- (sorted_first_is_min x Hne). destruct Hm as [E|Hc].
+  rewrite <- (sorted_first_is_min x Hne). destruct Hm as [E|[Hc|Hd]].
   - subst m. cbn [iecdf_sorted]. rewrite iecdf_inv_0. reflexivity.
   - apply quantile_ab_0; [exact Hc|apply qsort_sorted|exact Hs].
+  - rewrite (discrete_at_0 m _ Hd Hs). reflexivity.
 Qed.
 
 Lemma iecdf_at_1 m x : proved_iecdf m -> x <> [] -> iecdf m x 1 == QL.qmax x.
 Proof.
   intros Hm Hne. pose proof (qsort_nonempty x Hne) as Hs. unfold iecdf.
-  rewrite <- (sorted_last_is_max x Hne). destruct Hm as [E|Hc].
+  rewrite <- (sorted_last_is_max x Hne). destruct Hm as [E|[Hc|Hd]].
   - subst m. cbn [iecdf_sorted]. rewrite iecdf_inv_1. reflexivity.
   - rewrite (quantile_ab_1 m _ Hc Hs). reflexivity.
+  - rewrite (discrete_at_1 m _ Hd Hs). reflexivity.
 Qed.
 
 (* ---------- quantile mapping ---------- *)
@@ -132,7 +139,8 @@ Lemma qmap_extrap_continuous_lin im x y : proved_iecdf im -> (2 <= length x)%nat
 Proof.
   intros Hi Hn Hy. unfold qmap. cbn [ecdf].
   assert (E : ecdf_lin x (QL.qmax x) == 1) by (apply ecdf_lin_at_max; exact Hn).
-  unfold iecdf. destruct Hi as [Ei|Hc].
+  unfold iecdf. destruct Hi as [Ei|[Hc|Hd]].
+  3:{ rewrite (discrete_proper im _ _ 1 Hd E). rewrite (discrete_at_1 im _ Hd (qsort_nonempty y Hy)). apply sorted_last_is_max. exact Hy. }
   - subst im. cbn [iecdf_sorted]. unfold iecdf_inv.
     rewrite (Qfloor_comp _ (inject_Z (zlen (qsort y) - 1))); [rewrite Qfloor_Z; apply sorted_last_is_max; exact Hy|].
     rewrite E. ring.
